@@ -41,9 +41,9 @@ DoErr ==
 
 DoWTxn ==
     /\ Ev.ev = "wtxn"
-    /\ Chk(Ev.outcome \in {"results", "error"}, "C19", "an ill-formed transaction was not answered with results or an error",
+    /\ Chk(Ev.outcome \in {"results", "error"}, "C19", "a request (ill-formed transaction, or monitor request followed by a commit) was not answered with results or an error",
            [id |-> Ev.id, mode |-> Ev.mode, outcome |-> Ev.outcome, msg |-> Ev.msg])
-    /\ Chk(Ev.alive, "C19", "the database stopped serving after an ill-formed transaction", [id |-> Ev.id, mode |-> Ev.mode, msg |-> Ev.msg])
+    /\ Chk(Ev.alive, "C19", "the database stopped serving after an ill-formed transaction or a monitor request followed by a commit", [id |-> Ev.id, mode |-> Ev.mode, msg |-> Ev.msg])
 
 Init == l = 1 /\ done = FALSE
 Next == \/ /\ l <= Len(Trace) /\ (DoRT \/ DoDec \/ DoSmall \/ DoErr \/ DoWTxn) /\ l' = l + 1 /\ UNCHANGED done
